@@ -28,8 +28,13 @@ func mutatedDoc(idx int, r *lib.Rand, fixtures map[string][]byte) (text []byte, 
 		g := &gen.SpecGen{R: r, Tag: fmt.Sprintf("m%d", idx%7)}
 		tree = g.Clean()
 		base = "generated"
-		if r.P(0.3) {
-			g.Apply(gen.Faults[r.Intn(len(gen.Faults))])
+		if r.P(0.4) {
+			f := gen.Faults[r.Intn(len(gen.Faults))]
+			if r.Bool() {
+				// references which do not resolve are where the validators' error paths live
+				f = []string{"unresolvable-ref-parameter", "unresolvable-ref-response", "unresolvable-ref-definition", "dup-param-via-ref", "two-body-params-ref"}[r.Intn(5)]
+			}
+			g.Apply(f)
 		}
 	}
 	if tree == nil {
@@ -83,6 +88,15 @@ func (p *c07) Run(w *lib.Worker, idx int, r *lib.Rand) lib.Case {
 			c.Evals = 0
 			return c
 		}
+		if o.Panic != "" && cont && sut.IsDocumentedSchemaPanic(o.Panic) && docHasUnresolvableRef(text) {
+			// recorded finding: with continue-on-errors the default / example validators compile schemas whose
+			// references were already reported as unresolvable, and the documented invalid-schema panic escapes
+			c.Known = []string{"invalid-schema-panic-escapes-default-example-validation"}
+			c.KnownWhat = fmt.Sprintf("continue-on-errors=true, edits=%v: %s", edits, lib1(o.Panic))
+			c.Sample = map[string]any{"document": string(text), "edits": edits, "panic": o.Panic, "stack": trimStack(o.Stack)}
+			c.Nontrivial = true
+			return c
+		}
 		if o.Panic != "" {
 			c.Viol = &lib.Violation{
 				What:   fmt.Sprintf("panic validating a document that loads (continue-on-errors=%v): %s edits=%v", cont, lib1(o.Panic), edits),
@@ -107,4 +121,39 @@ func (p *c07) Finish(a *lib.Aggregate) (broken []string) {
 		broken = append(broken, "too few loadable documents")
 	}
 	return
+}
+
+// docHasUnresolvableRef tells whether the document (JSON or YAML text) holds a $ref which does not
+// resolve inside the document itself (dangling local pointer, or a reference to another file / URL).
+func docHasUnresolvableRef(text []byte) bool {
+	doc, err := sut.LoadSpec(text)
+	if err != nil {
+		return false
+	}
+	raw, err := model.Parse(doc.Raw())
+	if err != nil {
+		return false
+	}
+	c := &model.Ctx{Root: raw}
+	found := false
+	var walk func(v any)
+	walk = func(v any) {
+		switch x := v.(type) {
+		case map[string]any:
+			if r, ok := x["$ref"].(string); ok {
+				if _, ok := c.Resolve(r); !ok {
+					found = true
+				}
+			}
+			for _, e := range x {
+				walk(e)
+			}
+		case []any:
+			for _, e := range x {
+				walk(e)
+			}
+		}
+	}
+	walk(raw)
+	return found
 }
